@@ -1,5 +1,5 @@
 SPECIFICATION MSpec
 CONSTANTS
-  NProg = 31
+  NProg = 64
   Depth = 6
 INVARIANTS Emit WarmIsHistory
